@@ -280,7 +280,7 @@ int main(int argc, char **argv) {
             c.ops.insert(c.ops.end(), steps.begin(), steps.end());
             return c;
         });
-        ok = run_cases(a, ev, "c08-sequences", a.n(20000, 300000), 100, gen, run);
+        ok = run_cases(a, ev, "c08-sequences", a.n(80000, 600000), 100, gen, run);
     }
     ev.write(a.out);
     return ok ? 0 : 1;
